@@ -318,9 +318,9 @@ def rule_chain(ctx: Ctx) -> None:
     mc = prog.func(CH, "ChainNode._mark_clean")
     mf = ctx.flow(mc)
     dis = [c for c in calls_in(mc.node) if path_of(c.func) == "self._dirty_keys.discard"]
-    ok = len(dis) == 1
-    if ok:
-        dn = node_of(mf.cfg, dis[0])
+    ok = len(dis) >= 1
+    for d_ in dis:
+        dn = node_of(mf.cfg, d_)
         for p in _paths_to(mf, dn):
             has = p.decided(lambda t: t == "pendingisnotNone")
             left = p.decided(lambda t: t == "pending")
@@ -349,7 +349,56 @@ def rule_chain(ctx: Ctx) -> None:
     ctx.ob("C17-3", "G1", ft, "dirty ⇒ forward to tail", ("in", "key", "self._dirty_keys") in tests and ("ne", "ChainNodeRole.TAIL", "self._role") in tests, f"a non-tail CRAQ node forwards reads of dirty keys to the tail")
 
 
+def _dominance_tabulated(fn) -> tuple[str, str] | None:
+    """Decide what a two-vector predicate computes by tabulating it: the body is evaluated (OrderEval, finite collections) on all 256 pairs of
+    vectors over keys {x, y} with component values missing/0/1/2 and compared with "A dominates B" (∀k A[k] ≥ B[k] ∧ ∃k A[k] > B[k], missing = 0)
+    for both role assignments.  Independent of how the loop / any() / flags are written.  Returns (A, B) or None."""
+    import itertools
+
+    params = [p_ for p_ in fn.params() if p_ != "self"]
+    if fn.cls is not None and len(params) == 1:
+        roles = ("self._vector", f"{params[0]}._vector")
+    elif len(params) == 2:
+        roles = (params[0], params[1])
+    else:
+        return None
+    vals = (None, 0, 1, 2)
+    vecs = [{k_: v_ for k_, v_ in (("x", vx), ("y", vy)) if v_ is not None} for vx in vals for vy in vals]
+
+    def dom(a_, b_):
+        ks = set(a_) | set(b_)
+        return all(a_.get(k_, 0) >= b_.get(k_, 0) for k_ in ks) and any(a_.get(k_, 0) > b_.get(k_, 0) for k_ in ks)
+    agree = {(0, 1): True, (1, 0): True}
+    try:
+        for v1, v2 in itertools.product(vecs, repeat=2):
+            env = {roles[0]: dict(v1), roles[1]: dict(v2)}
+            if "." in roles[0]:
+                env["self"] = {"_vector": dict(v1)}
+                env[params[0]] = {"_vector": dict(v2)}
+            got = OrderEval(env).run(fn.node)
+            if bool(got) != dom(v1, v2):
+                agree[(0, 1)] = False
+            if bool(got) != dom(v2, v1):
+                agree[(1, 0)] = False
+            if not agree[(0, 1)] and not agree[(1, 0)]:
+                return None
+    except NotTabulable:
+        return None
+    if agree[(0, 1)]:
+        return roles[0], roles[1]
+    if agree[(1, 0)]:
+        return roles[1], roles[0]
+    return None
+
+
 def _dominance_summary(fn) -> tuple[str, str] | None:
+    """What does this predicate over two vectors compute?  (A, B) meaning "A dominates B", or None.  First the flag-loop idiom
+    `∀k a[k] >= b[k] ∧ ∃k a[k] > b[k]` is recognised syntactically; any other spelling is decided by tabulation (`_dominance_tabulated`)."""
+    got = _dominance_syntactic(fn)
+    return got if got is not None else _dominance_tabulated(fn)
+
+
+def _dominance_syntactic(fn) -> tuple[str, str] | None:
     """Recognise the flag-loop idiom `∀k a[k] >= b[k] ∧ ∃k a[k] > b[k]`; returns (A, B) meaning "A dominates B", or None."""
     body = [s for s in fn.node.body if not (isinstance(s, ast.Expr) and isinstance(s.value, ast.Constant))]
     if len(body) == 4:
